@@ -124,6 +124,9 @@ Section Effect.
             match out_name (c_decompress cf) op with
             | None => {| e_fs := f; e_warn := false; e_end := fatal_end "nosuffix" |}
             | Some q =>
+                if c_force cf && output_init_checks_same_file && same_file f q st
+                then {| e_fs := f; e_warn := true; e_end := ENext (DSkipped "open-out") |}
+                else
                 let f1 := if c_force cf then fst (sys_unlink f q) else f in
                 match sys_creat_excl f1 q (N.land (st_mode st) open_out_mode_mask) (c_uid cf) (c_gid cf) (c_now cf) with
                 | (f2, SOk iout) =>
@@ -164,9 +167,11 @@ Section Effect.
   (* every inode that existed is unchanged *)
   Definition keeps (b a : fs) : Prop := forall i nd, ilook b i = Some nd -> ilook a i = Some nd.
 
-  (* the operand still names the same object and that object is unchanged *)
+  (* the operand still names the same object, still leads (through symbolic links) to the same file, and every
+     file that existed is unchanged *)
   Definition input_intact (b a : fs) (op : path) : Prop :=
-    nlook a op = nlook b op /\ keeps b a.
+    nlook a op = nlook b op /\ keeps b a /\
+    (forall i, resolve b SYMLOOP_MAX op = SOk i -> resolve a SYMLOOP_MAX op = SOk i).
 
   (* no output file remains: the output name is free, or still holds what was
      there before the operand was started (an operand skipped without -f) *)
